@@ -5,6 +5,7 @@ import (
 	"crypto/tls"
 	"fmt"
 	"math"
+	"net"
 	"strings"
 	"time"
 
@@ -42,12 +43,23 @@ func dialer(static bool) client.InitImpl {
 		if static {
 			opts = append(opts, grpc.WithInitialWindowSize(65535), grpc.WithInitialConnWindowSize(65535))
 		}
+		o, _ := ctx.Value(obsKey{}).(*obsState)
+		if o != nil {
+			// the harness owns the observer's end of the transport: it can cut it
+			opts = append(opts, grpc.WithContextDialer(func(ctx context.Context, addr string) (net.Conn, error) {
+				c, err := (&net.Dialer{}).DialContext(ctx, "tcp", addr)
+				if err == nil {
+					o.h.change(func() { o.raw = append(o.raw, c) })
+				}
+				return c, err
+			}))
+		}
 		conn, err := grpc.DialContext(dctx, d.Addrs[0], opts...)
 		if err != nil {
 			return nil, fmt.Errorf("Dialer(%s, %v): %v", d.Addrs[0], d.Timeout, err)
 		}
-		if o, ok := ctx.Value(obsKey{}).(*obsState); ok {
-			o.h.change(func() { o.dialed = true })
+		if o != nil {
+			o.h.change(func() { o.dialed, o.live = true, true })
 		}
 		return gclient.NewFromConn(ctx, conn, d)
 	}
@@ -56,6 +68,9 @@ func dialer(static bool) client.InitImpl {
 func init() {
 	client.Register(slowType, dialer(true))
 	client.Register(plainType, dialer(false))
+	// reconnecting observers (client.Reconnect) retry quickly; read when a ReconnectClient is made
+	client.RetryBaseDelay = 100 * time.Millisecond
+	client.RetryMaxDelay = time.Second
 }
 
 // obsState is one running observer; everything but c, spec and the constants is guarded by hub.mu.
@@ -71,7 +86,13 @@ type obsState struct {
 	cancel  context.CancelFunc
 
 	started, dialed, first, synced, done, pausing, ended bool
-	startedAt, pauseEnd                                  time.Time
+	startedAt, pauseEnd, lastReset                       time.Time
+	// reconnecting observers: the transport(s) of the current attempt, whether one stands and has delivered
+	// something, how often the library subscribed again (reset callbacks), cuts made / made in vain
+	raw                                   []net.Conn
+	live, attemptFirst, cutting           bool
+	resets, cutsExecuted, cutNoEffect     int
+	onceDone                              bool
 	err                                                  error
 	seen                                                 map[string]bool
 	nextPause, pausesEntered, pauseByBound               int
@@ -96,6 +117,9 @@ func (o *obsState) reached(event string, n int) bool {
 	case "tick":
 		// it has received the tick leaf with value n: the collector has taken in everything the target sent before it
 		return o.maxTick >= int64(n)
+	case "resub":
+		// the library has subscribed again n times (same Query value) and the new subscription's walk is complete
+		return o.resets >= n && o.synced
 	}
 	return true
 }
@@ -109,6 +133,7 @@ func (o *obsState) handle(h *hub, clock *play, n client.Notification) error {
 			*b, wake = true, true
 		}
 	}
+	mark(&o.attemptFirst)
 	switch u := n.(type) {
 	case client.Sync:
 		mark(&o.first)
@@ -190,12 +215,79 @@ func (o *obsState) run(h *hub, addr string, clock *play) {
 	if o.spec.Slow {
 		typ = slowType
 	}
+	// ONE Query value for everything this observer subscribes with
+	q := client.Query{Addrs: []string{addr}, Target: o.target, Queries: clientPaths(o.spec.Queries), Type: client.Once, Timeout: 15 * time.Second,
+		TLS: &tls.Config{InsecureSkipVerify: true}}
+	if o.spec.OnceFirst {
+		// a snapshot first (the scripts are playing: what it shows is not judged, that it works is)
+		oc := client.New()
+		err := oc.Subscribe(ctx, q, typ)
+		oc.Close()
+		if err != nil && ctx.Err() == nil {
+			h.change(func() { o.ended, o.err = true, fmt.Errorf("ONCE subscription made first: %v", err) })
+			return
+		}
+		h.change(func() { o.onceDone = true })
+	}
 	ctx = context.WithValue(ctx, obsKey{}, o)
-	q := client.Query{Addrs: []string{addr}, Target: o.target, Queries: []client.Path{{"*"}}, Type: client.Stream, Timeout: 15 * time.Second,
-		TLS:                 &tls.Config{InsecureSkipVerify: true},
-		NotificationHandler: func(n client.Notification) error { return o.handle(h, clock, n) }}
-	err := o.c.Subscribe(ctx, q, typ)
+	q.Type = client.Stream
+	q.NotificationHandler = func(n client.Notification) error { return o.handle(h, clock, n) }
+	var err error
+	if o.spec.Reconnect {
+		rc := client.Reconnect(o.c, func() {
+			// the subscription ended; no handler call is in flight or will come before the next attempt
+			h.change(func() { o.live = false })
+		}, func() {
+			// about to subscribe again: what the callback is for - forget the old view; the new subscription's
+			// walk, sync marker and (if the scripts are through) sentinel have to be seen again
+			h.change(func() {
+				o.resets++
+				o.synced, o.done, o.attemptFirst = false, false, false
+				o.seen = map[string]bool{}
+				o.lastReset = time.Now()
+			})
+			o.c.Delete([]string{})
+		})
+		go o.cutter(h, clock)
+		err = rc.Subscribe(ctx, q, typ)
+	} else {
+		err = o.c.Subscribe(ctx, q, typ)
+	}
 	h.change(func() { o.ended, o.err = true, err })
+}
+
+// cutter closes the observer's transport to the collector at the scripted positions. A cut is made only while a
+// subscription stands and has delivered something; it is over when the library has subscribed again (reset
+// callback) or a bound passed (then it was in vain: a label). Timing selects what is hit, never the verdict.
+func (o *obsState) cutter(h *hub, clock *play) {
+	for _, at := range o.spec.Cuts {
+		h.wait(func() bool { return h.stop || ((clock.pos >= at || clock.done) && o.live && o.attemptFirst) }, 60*time.Second)
+		var conns []net.Conn
+		var r0 int
+		h.change(func() {
+			if h.stop || !o.live {
+				return
+			}
+			o.cutting = true
+			conns, o.raw = o.raw, nil
+			r0 = o.resets
+		})
+		if conns == nil {
+			h.change(func() { o.cutsExecuted++; o.cutNoEffect++ })
+			continue
+		}
+		for _, c := range conns {
+			c.Close()
+		}
+		ok := h.wait(func() bool { return h.stop || o.resets > r0 }, 8*time.Second)
+		h.change(func() {
+			o.cutting = false
+			o.cutsExecuted++
+			if !ok {
+				o.cutNoEffect++
+			}
+		})
+	}
 }
 
 // flowRun is the set of observers of one case.
@@ -290,7 +382,7 @@ func (fr *flowRun) wait(col *collectorProc) error {
 			if !p.done {
 				finished = false
 				limit := hang
-				if p.pos > 0 && p.pos <= len(p.ops) && p.ops[p.pos-1].Kind == "break" && p.ops[p.pos-1].Via == "rpc" {
+				if p.pos > 0 && p.pos <= len(p.ops) && p.ops[p.pos-1].Kind == "break" && (p.ops[p.pos-1].Via == "rpc" || p.ops[p.pos-1].Via == "silence") {
 					limit = 3 * hang // the op has its own bounds and ends the case without a verdict itself
 				}
 				if now.Sub(h.progress) > limit && err == nil {
@@ -317,15 +409,15 @@ func (fr *flowRun) wait(col *collectorProc) error {
 					err = &violation{"rpc-error", fmt.Sprintf("observer %d: STREAM subscription for target %q through the collector ended: %v", o.idx, o.target, o.err)}
 				}
 			}
-			if o.done {
+			if o.done && (o.cutsExecuted >= len(o.spec.Cuts) || !o.spec.Reconnect) {
 				continue
 			}
 			finished = false
-			if !scriptsDone || !o.started || o.pausing {
+			if !scriptsDone || !o.started || o.pausing || o.cutting || o.done {
 				continue
 			}
 			base := flushed
-			for _, t := range []time.Time{o.startedAt, o.pauseEnd} {
+			for _, t := range []time.Time{o.startedAt, o.pauseEnd, o.lastReset} {
 				if t.After(base) {
 					base = t
 				}
@@ -351,6 +443,15 @@ func (fr *flowRun) wait(col *collectorProc) error {
 
 func (fr *flowRun) describe(o *obsState) string {
 	d := fmt.Sprintf("observer %d (client cache, STREAM subscription to %s made when %s had started %d ops", o.idx, o.target, fr.sc.Targets[0].Name, o.spec.Start)
+	if len(o.spec.Queries) > 0 {
+		d += ", query paths " + describeQueries(o.spec.Queries)
+	}
+	if o.spec.OnceFirst {
+		d += ", the same client.Query value used for a ONCE subscription before"
+	}
+	if o.spec.Reconnect {
+		d += fmt.Sprintf(", client.ReconnectClient: transport to the collector cut %d time(s), subscribed again %d time(s) with the same client.Query value", o.cutsExecuted-o.cutNoEffect, o.resets)
+	}
 	if o.spec.Slow {
 		d += ", static flow-control windows"
 	}
@@ -378,6 +479,18 @@ func (fr *flowRun) check(ref map[string]interface{}, st *stats) error {
 		st.whileDown = st.whileDown || o.whileDown
 		st.pauseByBound = st.pauseByBound || o.pauseByBound > 0
 		st.lateObserver = st.lateObserver || o.spec.Start > 0
+		st.narrowObserver = st.narrowObserver || len(o.spec.Queries) > 0
+		st.slashQuery = st.slashQuery || slashInQueries(o.spec.Queries)
+		for _, q := range o.spec.Queries {
+			for _, e := range q.Path {
+				st.bracketQuery = st.bracketQuery || strings.Contains(e, "[")
+			}
+		}
+		st.onceFirst = st.onceFirst || o.onceDone
+		st.reconnectObserver = st.reconnectObserver || o.spec.Reconnect
+		st.cutsDone = st.cutsDone || o.cutsExecuted-o.cutNoEffect > 0
+		st.cutNoEffect = st.cutNoEffect || o.cutNoEffect > 0
+		st.resubscribed = st.resubscribed || o.resets > 0
 	}
 	st.boundHit = h.timedOut > 0
 	for _, p := range h.plays {
@@ -389,7 +502,20 @@ func (fr *flowRun) check(ref map[string]interface{}, st *stats) error {
 	}
 	h.mu.Unlock()
 	for i, o := range fr.obs {
-		if err := compareLeaves(what[i], o.c.Leaves(), ref, o.scope); err != nil {
+		// A reconnecting observer forgets its view whenever the library subscribes again. Its view is judged
+		// only if no such instant falls between "it had caught up" and "its leaves were read" - a connection
+		// lost late (a cut that took effect after its bound) leaves the case without a verdict.
+		h.mu.Lock()
+		r0, ok := o.resets, o.done
+		h.mu.Unlock()
+		leaves := o.c.Leaves()
+		h.mu.Lock()
+		ok = ok && o.resets == r0 && o.done
+		h.mu.Unlock()
+		if !ok {
+			return &inconclusive{msg: fmt.Sprintf("observer %d lost its connection to the collector again while its view was read", o.idx)}
+		}
+		if err := compareLeaves(what[i], leaves, ref, o.scope, o.spec.Queries...); err != nil {
 			return err
 		}
 	}
